@@ -31,6 +31,36 @@ def _centre_term(rt, data):
     return None
 
 
+def _cluster_means(ck, data):
+    """The two admissible sources of mu_k: the mean stored in the cluster by the statistics phase, or the mean of the cluster's
+    current member rows computed by the index itself."""
+    members = Attr(ck, "member_points")
+    return {"stored": Attr(ck, "stacked_data_mean"),
+            "own": tm.make_app("numpy.mean", [Idx(data, (members,))], {"axis": tm.ZERO}),
+            "own2": tm.make_app("numpy.mean", [Idx(data, (members, tm.Slc(None, None, None)))], {"axis": tm.ZERO})}
+
+
+def _only_skips_empty(guard, ck):
+    """An empty cluster contributes nothing to either dispersion: skipping it is the identity on the sums."""
+    if guard is None or guard == tm.TRUE:
+        return True
+    nonempty = {tm.compare("!=", Attr(ck, "size"), 0).key, tm.compare("!=", tm.length(Attr(ck, "member_points")), 0).key}
+    return guard.key in nonempty
+
+
+def mean_source(ana):
+    """'stored' | 'own' | None: where the cluster mean used by the index comes from."""
+    fi, b, data, m = _setup(ana)
+    rt = b.return_term()
+    keys = {x.key for x in tm.subterms(rt)}
+    stored = any(isinstance(x, Attr) and x.name == "stacked_data_mean" for x in tm.subterms(rt))
+    own = any(isinstance(x, App) and x.fn == "numpy.mean" and x.args and isinstance(x.args[0], Idx) and x.args[0].base == data
+              and any(isinstance(y, Attr) and y.name == "member_points" for i_ in x.args[0].idx for y in tm.subterms(i_)) for x in tm.subterms(rt))
+    if stored:
+        return "stored"
+    return "own" if own else None
+
+
 @rule("C17", "R1", "RANK", "the global centre is the per-column centroid of the stacked windows", floor=1)
 def r1(ctx):
     fi, b, data, m = _setup(ctx.ana)
@@ -80,22 +110,23 @@ def r2(ctx):
     # between-group dispersion
     SN = N.args[0]
     okN = False
-    if isinstance(SN, Sum) and len(SN.binders) == 1 and SN.guard is None and SN.binders[0][1] == Range(0, K):
+    if isinstance(SN, Sum) and len(SN.binders) == 1 and SN.binders[0][1] == Range(0, K):
         k = SN.binders[0][0]
         ck = Idx(clusters, (k,))
-        mu = Attr(ck, "stacked_data_mean")
         sizes = [Attr(ck, "size"), tm.length(Attr(ck, "member_points"))]
-        okN = any(SN.body == tm.mul(s, _outer(tm.add(mu, tm.neg(g)))) for s in sizes)
-    ctx.check(okN, fi, "B = sum_k size_k * (mu_k - g)(mu_k - g)^T over all clusters", role="between",
+        for mu in _cluster_means(ck, data).values():
+            okN = okN or (any(SN.body == tm.mul(s, _outer(tm.add(mu, tm.neg(g)))) for s in sizes) and _only_skips_empty(SN.guard, ck))
+    ctx.check(okN, fi, "B = sum_k size_k * (mu_k - g)(mu_k - g)^T over all (non-empty) clusters", role="between",
               expected="SUM_k size_k * outer(mu_k - g)", found=str(SN)[:220])
     SD = D.args[0]
     okD = False
-    if isinstance(SD, Sum) and len(SD.binders) == 2 and SD.guard is None and SD.binders[0][1] == Range(0, K):
+    if isinstance(SD, Sum) and len(SD.binders) == 2 and SD.binders[0][1] == Range(0, K):
         k, p = SD.binders[0][0], SD.binders[1][0]
         ck = Idx(clusters, (k,))
-        mu = Attr(ck, "stacked_data_mean")
         members = Attr(ck, "member_points")
-        okD = SD.binders[1][1] == Range(0, tm.length(members)) and SD.body == _outer(tm.add(Idx(data, (Idx(members, (p,)),)), tm.neg(mu)))
+        for mu in _cluster_means(ck, data).values():
+            okD = okD or (SD.binders[1][1] == Range(0, tm.length(members)) and _only_skips_empty(SD.guard, ck)
+                          and SD.body == _outer(tm.add(Idx(data, (Idx(members, (p,)),)), tm.neg(mu))))
     ctx.check(okD, fi, "Wd = sum_k sum_{p in cluster k} (x_p - mu_k)(x_p - mu_k)^T", role="within",
               expected="SUM_k SUM_{p in members_k} outer(x_p - mu_k)", found=str(SD)[:220])
 
@@ -117,5 +148,33 @@ def r_readonly(ctx):
 @rule("C17", "R5", "FLOW", "the cluster mean used by the index is the float mean of the cluster's own windows")
 def r5(ctx):
     from . import c12
+    src = mean_source(ctx.ana)
+    fi = ctx.ana.func(CH)
+    if src == "own":
+        # the index averages data[cluster.member_points] itself (R2 checks the formula): nothing the statistics phase stores enters it
+        ctx.ok(fi, "mu_k is computed by the index from the rows of cluster k's current members", role="mean:own")
+        return
+    if src is None:
+        ctx.unrecognised(fi, "the source of the cluster means used by the index is not recognised", role="mean:source")
+        return
     ctx.sub(c12.r1, only=("receiver:stacked_data_mean", "mean:rows", "return"))
     ctx.sub(c12.r3, only=("unconditional", "range", "slot"))     # ... refreshed for every cluster, one-member clusters included
+
+
+@rule("C17", "R6", "ORDER", "the cluster means that enter the index are means of the labelling the index is computed for")
+def r6(ctx):
+    """The index is defined on the returned labelling.  A mean stored by the statistics phase belongs to the labelling that phase
+    saw: the one *before* the last relabel, and *after* a repopulation - which the fixed-point test does not see (it compares the new
+    labels with the labels of the previous relabel).  A converged round that repopulated a one-member cluster therefore returns
+    means of a different membership (finding F10).  Either the index computes the means from the members it iterates over, or the
+    statistics are refreshed between the last relabel and the index on every path."""
+    from . import c09
+    src = mean_source(ctx.ana)
+    fi = ctx.ana.func(CH)
+    if src == "own":
+        ctx.ok(fi, "mu_k is the mean of the rows of the very member list the index sums over", role="mean:current")
+        return
+    if src is None:
+        ctx.unrecognised(fi, "the source of the cluster means used by the index is not recognised", role="mean:source")
+        return
+    c09.lifecycle(ctx, {"index-means-current"})
